@@ -548,9 +548,33 @@ class Oracle:
             P.check("C06", okleaf, "end groups are leaves")
             # hand-over descriptors match the written terminals
             okterm = True
+            conj = {"$": "$", "<": ">", ">": "<"}
             for rec in obs.attachments:
-                if rec.get("discarded"):
+                if rec["self_idx"] >= len(rec["self_open"]) or rec["other_idx"] >= len(rec["other_open"]):
                     continue
+                a, b = rec["self_open"][rec["self_idx"]], rec["other_open"][rec["other_idx"]]
+                tok_b = rec["other_token"]
+                eb = self.tok_elem.get(id(tok_b), (None, None))
+                ea = (None, None)
+                for r, lo, hi in rec["self_residues"]:
+                    if lo <= int(a["atom"]) < hi:
+                        ea = self.tok_elem.get(id(r.obj), (None, None))
+                if ea[0] is None or eb[0] is None or ea[0] == eb[0]:
+                    continue
+                left, right = self.elements[ea[0]], self.elements[eb[0]]
+                if isinstance(left, self.Stochastic):
+                    rt = left.right_terminal
+                    # the growing side offers a descriptor conjugate to the right terminal, the next element one equal to it
+                    if not (a["sym"] == conj.get(rt.descriptor) and a["id"] == rt.descriptor_id and ea[1] == "R"):
+                        okterm = False
+                    if not (b["sym"] == rt.descriptor and b["id"] == rt.descriptor_id):
+                        okterm = False
+                if isinstance(right, self.Stochastic):
+                    lt = right.left_terminal
+                    if not (a["sym"] == lt.descriptor and a["id"] == lt.descriptor_id):
+                        okterm = False
+                    if not (b["sym"] == conj.get(lt.descriptor) and b["id"] == lt.descriptor_id and eb[1] == "R"):
+                        okterm = False
             P.check("C06", okterm, "hand-over bonds use descriptors matching the terminal descriptors")
 
     def _check_blocks(self, obs, skeleton):
